@@ -417,4 +417,304 @@ Proof.
   change (length (sbe32 n1)) with 4%nat. change (length (sbe32 n2)) with 4%nat. change (length (sbe32 n3)) with 4%nat.
   change (length (sbe32 n4)) with 4%nat. change (length (sbe32 n5)) with 4%nat. lia.
 Qed.
+
+(* ---- character strings: HINFO and TXT --------------------------------------------------------------------------------- *)
+
+Lemma str_field_runs first sc s p : string_ok first sc s = true ->
+  runs (ftail (string_closed sc)) parse_character_string (render_string sc s) p p s.
+Proof. apply string_runs. Qed.
+
+Lemma string_ok_len first sc s : string_ok first sc s = true -> (length s <= 255)%nat.
+Proof. unfold string_ok. intros H. apply andb_true_iff in H. destruct H as [H _]. apply Nat.leb_le. exact H. Qed.
+
+Lemma chunk_wire s : (length s <= 255)%nat -> (N.of_nat (length s) mod 256) :: s = string_wire s.
+Proof. intros H. unfold string_wire. rewrite N.mod_small by lia. reflexivity. Qed.
+
+Lemma hinfo_runs cs s1 s2 p p3 : fields_ok o true false p cs [VStr s1; VStr s2] = Some p3 -> eol_ok p3 e = true ->
+  runs T parse_hinfo_rdata (render_fields cs [VStr s1; VStr s2] ++ render_eol e) p false
+       (flat_map field_wire [VStr s1; VStr s2]).
+Proof.
+  intros H He. prep H. unfold parse_hinfo_rdata. first_field HP Hf.
+  destruct (fok_str_inv _ _ _ _ Hf) as (sc1 & E1 & Hk1). destruct (fok_str_inv _ _ _ _ Hf0) as (sc2 & E2 & Hk2).
+  rewrite E1 in *. rewrite E2 in *. cbn [render_field fc_str]. rewrite fclosed_str in *.
+  eapply runs_bind; [eapply str_field_runs; exact Hk1|intros; eapply mid_tail; exact Hs0|]. cbv beta.
+  eapply runs_bind; [apply skip_to_next_field_runs; exact HP0|intros; eapply (field_fstart2 false (CStr sc2) (VStr s2)); exact Hf0|]. cbv beta.
+  eapply runs_bind; [eapply str_field_runs; exact Hk2|intros t Ht; eapply last_tail; eassumption|]. cbv beta.
+  finish He.
+  pose proof (string_ok_len _ _ _ Hk1) as L1. pose proof (string_ok_len _ _ _ Hk2) as L2.
+  assert (Eq : [N.of_nat (length s1) mod 256] ++ s1 ++ [N.of_nat (length s2) mod 256] ++ s2 = flat_map field_wire [VStr s1; VStr s2]).
+  { cbn [flat_map field_wire app]. unfold string_wire. rewrite !N.mod_small by lia. rewrite app_nil_r. reflexivity. }
+  rewrite Eq. apply mk_rdata_runs. cbn [flat_map field_wire]. unfold string_wire. rewrite app_nil_r, app_length. cbn [length]. lia.
+Qed.
+
+Definition chunk_of (f : fval) : bytes := match f with VStr s => (N.of_nat (length s) mod 256) :: s | _ => [] end.
+Definition is_str (f : fval) : Prop := exists s, f = VStr s.
+
+Lemma txt_loop_runs start : forall fs cs sc s first p1 p3 written chunks_rev fuel,
+  string_ok first sc s = true -> fields_ok o false (string_closed sc) p1 cs fs = Some p3 -> Forall is_str fs ->
+  eol_ok p3 e = true -> written + N.of_nat (length (flat_map field_wire (VStr s :: fs))) <= 65535 ->
+  runsN fuel T (txt_loop fuel start written chunks_rev)
+        (render_string sc s ++ render_fields cs fs ++ render_eol e) p1 false
+        (rev (map chunk_of (VStr s :: fs)) ++ chunks_rev).
+Proof.
+  induction fs as [|f fs IH]; intros cs sc s first p1 p3 written chunks_rev fuel Hk H Hall He Hlen;
+    (destruct fuel as [|fuel]; [apply runsN_0|]); cbn [txt_loop].
+  - apply fields_ok_nil in H. subst p3. cbn [render_fields app].
+    eapply runsN_bind_dec; [eapply str_field_runs; exact Hk| |intros t Ht; eapply last_tail; eassumption|].
+    { destruct sc; cbn [render_string]; [discriminate|]. unfold string_ok in Hk. apply andb_true_iff in Hk. destruct Hk as [_ Hk].
+      repeat (apply andb_true_iff in Hk; destruct Hk as [Hk ?]). destruct s as [|c s]; [discriminate|]. apply render_octets_nonempty. }
+    cbv beta zeta. cbn [flat_map field_wire string_wire length app] in Hlen. rewrite app_nil_r in Hlen.
+    destruct (65535 <? written + N.of_nat (length s) + 1) eqn:E; [apply N.ltb_lt in E; lia|].
+    apply runs_N. apply runs_app_nil. eapply runs_bind; [apply through_eol_runs; exact He|intros t Ht; exact Ht|].
+    cbv beta iota. cbn [map rev chunk_of app]. apply runs_ret.
+  - apply fields_ok_cons in H. destruct H as (q & Hs & Hf & H). pose proof (proj1 (sep_ok_inv _ _ _ _ Hs)) as HP.
+    inversion Hall as [|? ? [s2 ->] Hall']; subst. destruct (fok_str_inv _ _ _ _ Hf) as (sc2 & E2 & Hk2).
+    cbn [render_fields]. rewrite E2 in *. cbn [render_field fc_str]. rewrite fclosed_str in H.
+    rewrite <- !app_assoc.
+    eapply runsN_bind_dec; [eapply str_field_runs; exact Hk| |intros; eapply mid_tail; exact Hs|].
+    { destruct sc; cbn [render_string]; [discriminate|]. unfold string_ok in Hk. apply andb_true_iff in Hk. destruct Hk as [_ Hk].
+      repeat (apply andb_true_iff in Hk; destruct Hk as [Hk ?]). destruct s as [|c s]; [discriminate|]. apply render_octets_nonempty. }
+    cbv beta zeta.
+    assert (Hl2 : written + N.of_nat (length s) + 1 + N.of_nat (length (flat_map field_wire (VStr s2 :: fs))) <= 65535).
+    { change (flat_map field_wire (VStr s :: VStr s2 :: fs)) with (string_wire s ++ flat_map field_wire (VStr s2 :: fs)) in Hlen.
+      rewrite app_length in Hlen. unfold string_wire in Hlen at 1. cbn [length] in Hlen. lia. }
+    destruct (65535 <? written + N.of_nat (length s) + 1) eqn:E; [apply N.ltb_lt in E; lia|].
+    eapply runsN_bind; [apply through_field_runs; exact HP|intros; eapply (field_fstart2 false (CStr sc2) (VStr s2)); exact Hf|].
+    cbv beta iota.
+    specialize (IH (tl cs) sc2 s2 false q p3 (written + N.of_nat (length s) + 1)
+                   (((N.of_nat (length s) mod 256) :: s) :: chunks_rev) fuel Hk2 H Hall' He Hl2).
+    replace (rev (map chunk_of (VStr s :: VStr s2 :: fs)) ++ chunks_rev)
+      with (rev (map chunk_of (VStr s2 :: fs)) ++ ((N.of_nat (length s) mod 256) :: s) :: chunks_rev).
+    + exact IH.
+    + change (map chunk_of (VStr s :: VStr s2 :: fs)) with (chunk_of (VStr s) :: map chunk_of (VStr s2 :: fs)).
+      cbn [rev]. rewrite <- app_assoc. reflexivity.
+Qed.
+
+Lemma concat_chunks fs : Forall is_str fs -> Forall (fun f => forall s, f = VStr s -> (length s <= 255)%nat) fs ->
+  concat (map chunk_of fs) = flat_map field_wire fs.
+Proof.
+  induction fs as [|f fs IH]; intros H1 H2; [reflexivity|]. inversion H1 as [|? ? [s ->] H1']; subst. inversion H2 as [|? ? Hs H2']; subst.
+  cbn [map concat flat_map chunk_of field_wire]. rewrite (IH H1' H2'), (chunk_wire s (Hs s eq_refl)). reflexivity.
+Qed.
+
+Lemma fields_ok_str_len : forall fs cs first closed p p3, fields_ok o first closed p cs fs = Some p3 -> Forall is_str fs ->
+  Forall (fun f => forall s, f = VStr s -> (length s <= 255)%nat) fs.
+Proof.
+  induction fs as [|f fs IH]; intros cs first closed p p3 H Hall; [constructor|].
+  apply fields_ok_cons in H. destruct H as (q & Hs & Hf & H). inversion Hall as [|? ? [s ->] Hall']; subst.
+  constructor; [|eapply IH; eassumption]. intros s' [= <-]. destruct (fok_str_inv _ _ _ _ Hf) as (sc & _ & Hk).
+  eapply string_ok_len. exact Hk.
+Qed.
+
+(* TXT: one or more strings *)
+Lemma txt_runs cs f fs p p3 : fields_ok o true false p cs (f :: fs) = Some p3 -> Forall is_str (f :: fs) -> eol_ok p3 e = true ->
+  N.of_nat (length (flat_map field_wire (f :: fs))) <= 65535 ->
+  runs T parse_txt_rdata (render_fields cs (f :: fs) ++ render_eol e) p false (flat_map field_wire (f :: fs)).
+Proof.
+  intros H Hall He Hlen. pose proof (fields_ok_str_len _ _ _ _ _ _ H Hall) as Hlens.
+  apply fields_ok_cons in H. destruct H as (q & Hs & Hf & H). pose proof (proj1 (sep_ok_inv _ _ _ _ Hs)) as HP.
+  inversion Hall as [|? ? [s ->] Hall']; subst. destruct (fok_str_inv _ _ _ _ Hf) as (sc & E1 & Hk).
+  cbn [render_fields]. rewrite <- !app_assoc. unfold parse_txt_rdata. first_field HP Hf.
+  rewrite E1 in *. cbn [render_field fc_str]. rewrite fclosed_str in H.
+  apply runs_getpos. intros start. apply runs_get_fuel. intros fuel. apply runsN_app_nil.
+  eapply runsN_bind_l; [eapply (txt_loop_runs start fs (tl cs) sc s true q p3 0 [] fuel); eassumption|intros t Ht; exact Ht|].
+  cbv beta. rewrite app_nil_r, rev_fast_rev, rev_involutive, (concat_chunks _ Hall Hlens).
+  apply mk_rdata_runs. exact Hlen.
+Qed.
 End Typed.
+
+(* ---- RFC 3597 generic RDATA: \# length hex... ------------------------------------------------------------------------------- *)
+
+Definition hexdig_good (n : N) : bool :=
+  forallb (fun u => tokch (hexdig u n) && match hex_nibble (hexdig u n) with Some v => v =? n | None => false end) [true; false].
+Lemma hexdig_sweep : forallb hexdig_good [0;1;2;3;4;5;6;7;8;9;10;11;12;13;14;15] = true.
+Proof. vm_compute. reflexivity. Qed.
+
+Lemma hexdig_facts u n : n < 16 -> plainb (hexdig u n) = true /\ hex_nibble (hexdig u n) = Some n.
+Proof.
+  intros Hn. pose proof hexdig_sweep as S. rewrite forallb_forall in S.
+  assert (Hin : In n [0;1;2;3;4;5;6;7;8;9;10;11;12;13;14;15]).
+  { assert (n = 0 \/ n = 1 \/ n = 2 \/ n = 3 \/ n = 4 \/ n = 5 \/ n = 6 \/ n = 7 \/ n = 8 \/ n = 9 \/ n = 10 \/ n = 11 \/
+            n = 12 \/ n = 13 \/ n = 14 \/ n = 15) by lia. simpl. intuition. }
+  specialize (S _ Hin). unfold hexdig_good in S. rewrite forallb_forall in S.
+  assert (Hu : In u [true; false]) by (destruct u; simpl; auto). specialize (S _ Hu).
+  apply andb_true_iff in S. destruct S as [S1 S2]. split; [apply tokch_plainb; exact S1|].
+  destruct (hex_nibble (hexdig u n)) as [v|]; [|discriminate]. apply N.eqb_eq in S2. congruence.
+Qed.
+
+Lemma hex_digit_runs u n p : n < 16 -> runs anyt parse_ascii_hex_digit [hexdig u n] p p n.
+Proof.
+  intros Hn. destruct (hexdig_facts u n Hn) as [Hp Hv]. unfold parse_ascii_hex_digit.
+  apply runs_app_nil. eapply runs_bind; [apply rfo_plain; exact Hp|intros; exact I|].
+  cbv beta iota. unfold hex_digit_of. rewrite Hv. apply runs_ret.
+Qed.
+
+(* the first digit of an octet, written directly after the previous one ... *)
+Lemma leading_direct_runs u n p : n < 16 -> runs anyt parse_leading_ascii_hex_digit [hexdig u n] p p n.
+Proof.
+  intros Hn. destruct (hexdig_facts u n Hn) as [Hp Hv]. unfold parse_leading_ascii_hex_digit.
+  apply runs_getpos. intros q. apply runs_app_nil. eapply runs_bind; [apply rfo_plain; exact Hp|intros; exact I|].
+  cbv beta iota. unfold hex_digit_of. rewrite Hv. apply runs_ret.
+Qed.
+
+(* ... or after a word break *)
+Lemma leading_break_runs s u n p p' : sep_ok p false s = Some p' -> n < 16 ->
+  runs anyt parse_leading_ascii_hex_digit (render_sep s ++ [hexdig u n]) p p' n.
+Proof.
+  intros Hs Hn. apply sep_ok_inv in Hs. destruct Hs as [Hs He]. destruct (hexdig_facts u n Hn) as [Hp Hv].
+  unfold parse_leading_ascii_hex_digit. apply runs_getpos. intros q.
+  change (render_sep s ++ [hexdig u n]) with ([] ++ render_sep s ++ [hexdig u n]).
+  eapply runs_bind; [apply rfo_end| |].
+  - intros t _. rewrite <- app_assoc. eapply fend_sep; [exact Hs|apply He; reflexivity].
+  - cbv beta iota. eapply runs_bind; [apply to_field_runs; exact Hs| |].
+    + intros t _. cbn [app]. apply fstart_plain. exact Hp.
+    + cbv beta iota. apply hex_digit_runs. exact Hn.
+Qed.
+
+Lemma octet_nibbles o : o < 256 -> o / 16 < 16 /\ o mod 16 < 16 /\ o / 16 * 16 + o mod 16 = o.
+Proof.
+  intros H. split; [apply N.div_lt_upper_bound; lia|]. split; [apply N.mod_lt; lia|].
+  rewrite N.mul_comm. symmetry. apply N.div_mod. lia.
+Qed.
+
+Lemma hex_loop_runs : forall data ws acc p p', hex_ok false p ws data = Some p' ->
+  runs anyt (hex_loop (length data) acc) (render_hex ws data) p p' (rev acc ++ data).
+Proof.
+  induction data as [|o data IH]; intros ws acc p p' H.
+  - cbn [hex_ok] in H. inversion H; subst. cbn [length hex_loop render_hex]. rewrite app_nil_r, rev_fast_rev. apply runs_ret.
+  - cbn [hex_ok] in H. destruct (o <? 256) eqn:Eo; [|discriminate]. apply N.ltb_lt in Eo.
+    destruct (octet_nibbles o Eo) as (Hh & Hl & Hv).
+    cbn [length hex_loop render_hex]. destruct (hd (None, false, false) ws) as [[so u1] u2] eqn:Ew. cbn [fst] in H.
+    assert (IH' : forall p1, hex_ok false p1 (tl ws) data = Some p' ->
+                  runs anyt (hex_loop (length data) ((o / 16 * 16 + o mod 16) :: acc)) (render_hex (tl ws) data) p1 p' (rev acc ++ o :: data)).
+    { intros p1 H1. rewrite Hv. replace (rev acc ++ o :: data) with (rev (o :: acc) ++ data) by (cbn [rev]; rewrite <- app_assoc; reflexivity).
+      apply IH. exact H1. }
+    unfold render_hex_octet. destruct so as [s|].
+    + destruct (sep_ok p false s) as [p1|] eqn:Es; [|discriminate].
+      replace ((render_sep s ++ [hexdig u1 (o / 16); hexdig u2 (o mod 16)]) ++ render_hex (tl ws) data)
+        with ((render_sep s ++ [hexdig u1 (o / 16)]) ++ [hexdig u2 (o mod 16)] ++ render_hex (tl ws) data)
+        by (rewrite <- !app_assoc; reflexivity).
+      eapply runs_bind; [apply leading_break_runs; [exact Es|exact Hh]|intros; exact I|]. cbv beta.
+      eapply runs_bind; [apply hex_digit_runs; exact Hl|intros; exact I|]. cbv beta. apply IH'. exact H.
+    + cbn [app]. change (hexdig u1 (o / 16) :: hexdig u2 (o mod 16) :: render_hex (tl ws) data)
+        with ([hexdig u1 (o / 16)] ++ [hexdig u2 (o mod 16)] ++ render_hex (tl ws) data).
+      eapply runs_bind; [apply leading_direct_runs; exact Hh|intros; exact I|]. cbv beta.
+      eapply runs_bind; [apply hex_digit_runs; exact Hl|intros; exact I|]. cbv beta. apply IH'. exact H.
+Qed.
+
+Lemma bind_ret_l {A B} (a : A) (f : A -> M B) r : bindM (ret a) f r = f a r.
+Proof. reflexivity. Qed.
+
+Section Generic.
+Variable e : eolc.
+Let T := eoft (e_term e).
+
+Lemma unknown_impl_runsQ s1 ic ws data p p1 p3 :
+  sep_ok p false s1 = Some p1 -> uint_ok 65535 ic (N.of_nat (length data)) = true ->
+  hex_ok true p1 ws data = Some p3 -> eol_ok p3 e = true ->
+  runsQ T parse_unknown_rdata_impl
+        (render_sep s1 ++ render_uint ic (N.of_nat (length data)) ++ render_hex ws data ++ render_eol e) p false
+        (fun v => snd v = data).
+Proof.
+  intros Hs1 Hu Hh He. pose proof (proj1 (sep_ok_inv _ _ _ _ Hs1)) as HP1.
+  destruct (uint_tok 65535 ic _ ltac:(lia) Hu) as [Ht1 _].
+  unfold parse_unknown_rdata_impl.
+  eapply runs_bind_Q; [apply skip_to_next_field_runs; exact HP1| |].
+  { intros t Ht. rewrite <- app_assoc. apply tok_fstart; [exact Ht1|apply uint_nonempty]. }
+  cbv beta.
+  destruct data as [|o data].
+  - (* no data *)
+    cbn [hex_ok] in Hh. inversion Hh; subst p3. cbn [render_hex app length].
+    eapply runs_bind_Q; [apply u16_runs; exact Hu|intros t Ht; eapply fend_eol; eassumption|].
+    cbv beta. change (N.of_nat 0 =? 0) with true. cbv iota.
+    eapply runsQ_eq; [intros r; apply bindM_assoc|]. apply runsQ_getpos. intros q.
+    eapply runsQ_eq; [intros r; apply bind_ret_l|].
+    eapply (runsQ_of_runs _ _ _ _ _ (q, @nil N)); [|reflexivity].
+    apply runs_app_nil. eapply runs_bind; [apply expect_eol_runs; exact He|intros t Ht; exact Ht|]. cbv beta. apply runs_ret.
+  - (* data: the first word break is mandatory *)
+    cbn [hex_ok] in Hh. destruct (o <? 256) eqn:Eo; [|discriminate].
+    destruct (hd (None, false, false) ws) as [[so u1] u2] eqn:Ew. cbn [fst] in Hh.
+    destruct so as [s0|]; [|discriminate]. destruct (sep_ok p1 false s0) as [p2|] eqn:Es0; [|discriminate].
+    pose proof (sep_ok_inv _ _ _ _ Es0) as [HP0 HE0].
+    assert (Hh' : hex_ok false p2 ((None, u1, u2) :: tl ws) (o :: data) = Some p3).
+    { cbn [hex_ok hd fst tl]. rewrite Eo. exact Hh. }
+    assert (Etext : render_hex ws (o :: data) = render_sep s0 ++ render_hex ((None, u1, u2) :: tl ws) (o :: data)).
+    { cbn [render_hex hd tl]. rewrite Ew. unfold render_hex_octet. rewrite <- !app_assoc. reflexivity. }
+    rewrite Etext. rewrite <- !app_assoc.
+    eapply runs_bind_Q; [apply u16_runs; exact Hu|intros t Ht; rewrite <- ?app_assoc; eapply fend_sep; [exact HP0|apply HE0; reflexivity]|].
+    cbv beta.
+    assert (Hnz : (N.of_nat (length (o :: data)) =? 0) = false) by (apply N.eqb_neq; cbn [length]; lia).
+    rewrite Hnz.
+    eapply runsQ_eq; [intros r; apply bindM_assoc|].
+    eapply runs_bind_Q; [apply skip_to_next_field_runs; exact HP0| |].
+    { intros t Ht. cbn [render_hex hd]. unfold render_hex_octet. cbn [app]. apply fstart_plain.
+      apply N.ltb_lt in Eo. destruct (octet_nibbles o Eo) as (Hh1 & _). apply (hexdig_facts u1 _ Hh1). }
+    cbv beta.
+    eapply runsQ_eq; [intros r; apply bindM_assoc|]. apply runsQ_getpos. intros q.
+    eapply runsQ_eq; [intros r; apply bindM_assoc|].
+    rewrite Nat2N.id.
+    eapply runs_bind_Q; [apply (hex_loop_runs _ _ [] _ _ Hh')|intros; exact I|].
+    cbv beta. cbn [rev app].
+    eapply runsQ_eq; [intros r; apply bindM_assoc|].
+    change (render_eol e) with ([] ++ render_eol e).
+    eapply runs_bind_Q; [apply (mk_rdata_runs anyt); unfold uint_ok in Hu; apply andb_true_iff in Hu; destruct Hu as [Hu _]; apply N.leb_le in Hu; exact Hu|intros; exact I|].
+    cbv beta.
+    eapply runsQ_eq; [intros r; apply bind_ret_l|].
+    eapply (runsQ_of_runs _ _ _ _ _ (q, o :: data)); [|reflexivity].
+    apply runs_app_nil. eapply runs_bind; [apply expect_eol_runs; exact He|intros t Ht; exact Ht|]. cbv beta. apply runs_ret.
+Qed.
+
+Lemma runsQ_bind_ret {A B} (m : M A) (g : A -> M B) s b b' (Q : A -> Prop) w :
+  runsQ T m s b b' Q -> (forall v r, Q v -> g v r = Ok (w, r)) -> runs T (bindM m g) s b b' w.
+Proof.
+  intros H Hg r t E P W Ht. destruct (H r t E P W Ht) as (r' & v & F & Po & HQ).
+  exists r'. unfold bindM. rewrite F. split; [apply Hg; exact HQ|exact Po].
+Qed.
+End Generic.
+
+Lemma runsQ_map {A B} (T : bytes -> Prop) (m : M A) (g : A -> M B) s b b' (Q : A -> Prop) w :
+  runsQ T m s b b' Q -> (forall v r, Q v -> g v r = Ok (w, r)) -> runsQ T (bindM m g) s b b' (fun x => x = w).
+Proof.
+  intros H Hg r t E P W Ht. destruct (H r t E P W Ht) as (r' & v & F & Po & HQ).
+  exists r', w. unfold bindM. rewrite F. split; [apply Hg; exact HQ|]. split; [exact Po|reflexivity].
+Qed.
+
+Section Generic2.
+Variable e : eolc.
+Let T := eoft (e_term e).
+
+(* the text of the \# form, and when it is legal *)
+Definition generic_text (s0 s1 : sep) (ic : ichoice) (ws : list (option sep * bool * bool)) (data : bytes) : bytes :=
+  render_sep s0 ++ bh ++ render_sep s1 ++ render_uint ic (N.of_nat (length data)) ++ render_hex ws data.
+
+Definition generic_ok (p : bool) s0 s1 ic ws data (p3 : bool) : Prop :=
+  exists p0 p1, sep_ok p false s0 = Some p0 /\ sep_ok p0 false s1 = Some p1 /\
+    uint_ok 65535 ic (N.of_nat (length data)) = true /\ hex_ok true p1 ws data = Some p3.
+
+(* a type without a syntax of its own *)
+Lemma unknown_runs K K' s0 s1 ic ws data p p3 : generic_ok p s0 s1 ic ws data p3 -> eol_ok p3 e = true ->
+  runs T (bindM (check_backslash_hash K) (fun bh => if negb bh then failHere K' else parse_unknown_rdata))
+       (generic_text s0 s1 ic ws data ++ render_eol e) p false data.
+Proof.
+  intros (p0 & p1 & Hs0 & Hs1 & Hu & Hh) He. apply runs_of_runsQ. unfold generic_text. rewrite <- !app_assoc.
+  pose proof (sep_ok_inv _ _ _ _ Hs0) as [HP0 _]. pose proof (sep_ok_inv _ _ _ _ Hs1) as [HP1 HE1].
+  eapply cbh_true_runsQ; [exact HP0| |].
+  - intros t Ht. rewrite <- app_assoc. eapply fend_sep; [exact HP1|apply HE1; reflexivity].
+  - cbn [negb]. unfold parse_unknown_rdata. eapply runsQ_map; [eapply unknown_impl_runsQ; eassumption|].
+    intros v r Hv. cbv beta. unfold ret. rewrite Hv. reflexivity.
+Qed.
+
+(* a type with a syntax of its own, written in the \# form: the data must be valid for the type *)
+Lemma validated_runs K (typed : M bytes) validator s0 s1 ic ws data p p3 :
+  generic_ok p s0 s1 ic ws data p3 -> eol_ok p3 e = true -> validator data = Ok true ->
+  runs T (bindM (check_backslash_hash K) (fun bh => if bh then parse_unknown_rdata_with_validation validator else typed))
+       (generic_text s0 s1 ic ws data ++ render_eol e) p false data.
+Proof.
+  intros (p0 & p1 & Hs0 & Hs1 & Hu & Hh) He Hv. apply runs_of_runsQ. unfold generic_text. rewrite <- !app_assoc.
+  pose proof (sep_ok_inv _ _ _ _ Hs0) as [HP0 _]. pose proof (sep_ok_inv _ _ _ _ Hs1) as [HP1 HE1].
+  eapply cbh_true_runsQ; [exact HP0| |].
+  - intros t Ht. rewrite <- app_assoc. eapply fend_sep; [exact HP1|apply HE1; reflexivity].
+  - unfold parse_unknown_rdata_with_validation. eapply runsQ_map; [eapply unknown_impl_runsQ; eassumption|].
+    intros v r Hsv. cbv beta. rewrite Hsv, Hv. reflexivity.
+Qed.
+End Generic2.
